@@ -48,7 +48,7 @@ def build(e, xs):
     raise ValueError(e)
 
 
-def show(e, names="xyzuvw"):
+def show(e, names="xyzuvwabcdefgh"):
     t = e[0]
     if t == "v":
         return names[e[1]]
@@ -187,7 +187,7 @@ def make_model(doms, cons):
     from solvor.cp import Model
 
     m = Model()
-    names = "xyzuvw"
+    names = "xyzuvwabcdefgh"
     xs = [m.int_var(lo, hi, names[i]) for i, (lo, hi) in enumerate(doms)]
     ok = True
     for c in cons:
@@ -270,6 +270,46 @@ def space_alldiff(idx):
     k = idx // 2
     ds = [DOMS[x] for x in digits(k, len(DOMS), 3)]
     return tuple(ds), [("alldiff", tuple(range(nv)))]
+
+
+WIDE_DOMS = ((0, 1), (0, 2), (1, 2))
+
+
+def space_alldiff_wide(idx):
+    """all_different over 7 variables, each with one of three narrow domains (a value then lies in the domain of up to seven
+    variables: at-most-one groups of size 7), followed by the three models with 10 variables of equal domains"""
+    if idx < 3**7:
+        return tuple(WIDE_DOMS[x] for x in digits(idx, 3, 7)), [("alldiff", tuple(range(7)))]
+    return tuple([WIDE_DOMS[idx - 3**7]] * 10), [("alldiff", tuple(range(10)))]
+
+
+def size_alldiff_wide():
+    return 3**7 + 3
+
+
+def space_alldiff7_full(idx):
+    """all_different over 7 variables with the full domain 0..6 (every value lies in seven domains; 5040 solutions):
+    0 = nothing else, 1 = x0..x5 pinned to 0..5 by equality constraints, 2 = pinned to 6..1, 3 = x1..x6 pinned"""
+    cons = [("alldiff", tuple(range(7)))]
+    if idx == 1:
+        cons += [("cmp", "==", ("v", i), ("c", i)) for i in range(6)]
+    elif idx == 2:
+        cons += [("cmp", "==", ("v", i), ("c", 6 - i)) for i in range(6)]
+    elif idx == 3:
+        cons += [("cmp", "==", ("v", i), ("c", i)) for i in range(1, 7)]
+    return tuple([(0, 6)] * 7), cons
+
+
+def space_cumulative5(idx):
+    """five unit-duration tasks that can all run at time 0 or 1, demands over {1,2,4}, capacity 3..6:
+    index = dem_code*4 + cap"""
+    cap = 3 + idx % 4
+    dem = [(1, 2, 4)[x] for x in digits(idx // 4, 3, 5)]
+    return tuple([(0, 1)] * 5), [("cumulative", (0, 1, 2, 3, 4), (1, 1, 1, 1, 1), tuple(dem), cap)]
+
+
+def size_cumulative5():
+    return 3**5 * 4
 
 
 SUM_DOMS = ((0, 2), (-1, 1), (1, 3))
